@@ -48,7 +48,7 @@ func reg(p *Prop) {
 type E = []func(*core.Ctx)
 
 func init() {
-	for _, id := range []string{"C01", "C02", "C03", "C04", "C05", "C06", "C07", "C08", "C09", "C10", "C11", "C12", "C13", "C14", "C16", "C18", "C19"} {
+	for _, id := range []string{"C01", "C02", "C03", "C04", "C05", "C06", "C07", "C08", "C09", "C10", "C11", "C12", "C13", "C14", "C19"} {
 		NotYet[id] = "engine for this property is designed (DESIGN.md section 4) but not yet armed in this commit; not claimed until its check runs clean on the pinned tree"
 	}
 
@@ -84,5 +84,43 @@ func init() {
 			{Rule: "TIME.ovf.call", Min: 3, Why: "returns of Add"},
 		},
 		Explanation: "Add: every path of the function is enumerated symbolically (result fields as linear terms of the inputs, interval of t.Nanos+d.Nanos refined by the branch conditions, inputs ranging over all valid timestamps/durations); each return is checked for exactness (t+d with carry k), normalisation (Nanos interval inside [0,1e9)), freshness and a dominating overflowPanic call with the right arguments. Compare/DurationIsNegative/overflowPanic: finite abstraction — their arguments are touched only through comparisons (checked), so evaluating the body on one representative per ordering is exhaustive. Not decided: agreement with AddStd (time.Time arithmetic), detection of 64-bit wrap for inputs outside the valid ranges.",
+	})
+
+	reg(&Prop{
+		ID:        "C16",
+		Technique: "SSA dataflow/dominance rules specific to anyutil (store ordering vs error returns, value provenance, must-check of error results, no panicking instruction forms)",
+		DesignRef: "DESIGN.md 4 C16",
+		LevelText: "On the SSA of anyutil: TypeUrl is exactly \"/\"+string(src.ProtoReflect().Descriptor().FullName()) and no host-like constant exists in the package; Value is opts.Marshal(src) with the caller's options; no store to *dst can be followed by an error return (failed pack leaves dst untouched); Unpack/MarshalFrom/New contain no single-result type assertion, explicit panic, index or slice expression; Unpack consults the type resolver first with any.TypeUrl, falls back to the file resolver only on protoregistry.NotFound with TrimPrefix(TypeUrl,\"/\"), returns every other resolver error, checks every error result before using the value, builds the dynamic type from the found descriptor via a guarded comma-ok assertion, decodes into typ.New().Interface() and returns it; any/alias.go binds the three functions. Not decided: equality of the unpacked message with m and agreement of the two resolver paths on values (library behaviour, A3).",
+		Engines:      E{lib.RunAnyutil},
+		RulePrefixes: []string{"ANY"},
+		Floors: []core.Floor{
+			{Rule: "ANY.atomic", Min: 4, Why: "dst-escape + 2 error returns + count"},
+			{Rule: "ANY.url", Min: 3, Why: "TypeUrl store, stores present, host scan"},
+			{Rule: "ANY.value", Min: 2, Why: "Value store, New delegates"},
+			{Rule: "ANY.nopanic", Min: 4, Why: "3 function scans + the descriptor assertion"},
+			{Rule: "ANY.fallback", Min: 8, Why: "structure of Unpack"},
+			{Rule: "ANY.errors", Min: 2, Why: "FindDescriptorByName, UnmarshalTo"},
+			{Rule: "ANY.alias", Min: 3, Why: "three aliases"},
+		},
+		Explanation: "SSA rules on anyutil.MarshalFrom/New/Unpack and any/alias.go; see level text. The runtime-value clauses (round-trip equality, agreement of registry paths) are not decided.",
+	})
+
+	reg(&Prop{
+		ID:        "C18",
+		Technique: "call-graph cycle analysis with depth-argument weights, SSA provenance rules (write-through origins, enum numbers, constant ranges), dominance rules for option tests, interprocedural nil-argument flow",
+		DesignRef: "DESIGN.md 4 C18",
+		LevelText: "Structural necessary conditions of the generator's guarantees, decided on SSA/AST of rapidproto: every recursion cycle among the generator methods increases the depth argument by >=1 and passes a function that returns when depth exceeds the limit; every loop is a counted loop; every mutating List/Map/Message call acts on a write-through view or an owned message (a detached NewField value that is never stored back is reported); ValueOfEnum receives a declared EnumValueDescriptor.Number(); the constant ranges of the Timestamp/Duration draws lie inside the valid ranges of timestamppb/durationpb with sign agreement; list lower bound is 1 iff NoEmptyLists; a message field is skipped only on the !DisallowNilMessages edge; field mappers run before the per-kind draws; no method is called on a FieldDescriptor parameter that can receive nil without a nil test. Not decided: UTF-8 validity of drawn strings, that drawn messages round-trip, resolvability of Any URLs (runtime/configuration facts).",
+		Engines:      E{lib.RunRapid},
+		RulePrefixes: []string{"RAPID"},
+		Floors: []core.Floor{
+			{Rule: "RAPID.term", Min: 6, Why: "edges of the setFields/setFieldValue/genAny cycle + guard + progress"},
+			{Rule: "RAPID.term.loop", Min: 3, Why: "three counted loops"},
+			{Rule: "RAPID.set", Min: 12, Why: "mutating reflection calls"},
+			{Rule: "RAPID.enum", Min: 1, Why: "one ValueOfEnum"},
+			{Rule: "RAPID.range", Min: 5, Why: "2x(seconds,nanos)+mapping"},
+			{Rule: "RAPID.opts", Min: 3, Why: "three option rules"},
+			{Rule: "RAPID.nil", Min: 2, Why: "nil sources + method calls"},
+		},
+		Explanation: "SSA/AST rules on rapidproto; see level text. Runtime-value clauses (UTF-8, round trip, URL resolvability) are not decided.",
 	})
 }
